@@ -1577,9 +1577,14 @@ func contract_collectImportsFromType(t types.Type, pkg string, imports map[strin
 	vs.Requires(poolInv(varPool) && imports != nil && referencedImports != nil)
 	vs.Ensures("pool_inv", poolInv(varPool))
 	vs.Ensures("imports_stay_nonnil", allImportTablesStayNonNil())
+	vs.Ensures("referenced_stay_nonnil", vs.Implies(vs.Old(importsNonNil(referencedImports)), importsNonNil(referencedImports)))
 	vs.Modifies(imports, referencedImports, varPool.vars)
 	vs.Allocates()
 }
+
+// importTableIsNew: the map did not exist when the function was entered (the parameter is bound to the map's current
+// identity; only the allocation test looks at the old state).
+func importTableIsNew(m map[string]*Import) bool { return !vs.Old(vs.IsAllocated(m)) }
 
 //kvc:contract NewInjectorParamWithImports
 func contract_NewInjectorParamWithImports(ts []types.Type, isArg bool, pkg string, imports map[string]*Import, varPool *VarPool) (result *InjectorParam) {
@@ -1588,6 +1593,10 @@ func contract_NewInjectorParamWithImports(ts []types.Type, isArg bool, pkg strin
 		result.refCounter == 0 && !result.withChannel && result.name == "" && result.channelName == "" && result.ReferencedImports != nil)
 	vs.Ensures("pool_inv", poolInv(varPool))
 	vs.Ensures("imports_stay_nonnil", allImportTablesStayNonNil())
+	// the value's own import table is a fresh map with non-nil entries
+	vs.Ensures("referenced_imports_nonnil", importsNonNil(result.ReferencedImports))
+	vs.Ensures("referenced_imports_private", !vs.SameMap(result.ReferencedImports, imports))
+	vs.Ensures("referenced_imports_fresh", importTableIsNew(result.ReferencedImports))
 	vs.Modifies(imports, varPool.vars)
 	vs.Allocates()
 	return
@@ -1596,13 +1605,19 @@ func contract_NewInjectorParamWithImports(ts []types.Type, isArg bool, pkg strin
 //kvc:loop NewInjectorParamWithImports "for _, t := range ts"
 func inv_NewInjectorParamWithImports(varPool *VarPool, imports map[string]*Import, referencedImports map[string]*Import) {
 	vs.Invariant("pool_inv", poolInv(varPool))
-	vs.Invariant("maps", imports != nil && referencedImports != nil)
+	vs.Invariant("maps", imports != nil && referencedImports != nil && importsNonNil(referencedImports) && !vs.SameMap(referencedImports, imports) &&
+		!vs.Old(vs.IsAllocated(referencedImports)))
 	vs.Invariant("imports_stay_nonnil", allImportTablesStayNonNil())
 }
 
 // firstCtxArg: index of the first context.Context among the first n arguments (n if none).
 func noCtxBefore(args []*InjectorArgument, n int) bool {
 	return vs.Forall(n, func(j int) bool { return !isContextType(args[j].Type) })
+}
+
+// argParamsAreArgs: the values of injector arguments are marked as arguments.
+func argParamsAreArgs(injector *Injector) bool {
+	return vs.Forall(len(injector.Args), func(i int) bool { return injector.Args[i].Param.isArg })
 }
 
 //kvc:contract (*Graph).injectContextArg
@@ -1634,6 +1649,17 @@ func contract_Graph_injectContextArg(g *Graph, injector *Injector, metaData *Met
 	vs.Ensures("provider_values_keep_their_channel", vs.ForallOldPtr(func(q *InjectorParam) bool {
 		return vs.Implies(!q.isArg && vs.Old(q.withChannel), q.withChannel)
 	}))
+	// ... nor gives one, and reference counts only grow
+	vs.Ensures("counts_and_channels_monotone", vs.ForallOldPtr(func(q *InjectorParam) bool {
+		return q.refCounter >= vs.Old(q.refCounter) && vs.Implies(q.withChannel, vs.Old(q.withChannel))
+	}))
+	// values of providers are not touched at all (the only value referenced here is the context argument's)
+	vs.Ensures("provider_values_untouched", vs.Implies(vs.Old(argParamsAreArgs(injector)), vs.ForallOldPtr(func(q *InjectorParam) bool {
+		return vs.Implies(!q.isArg, q.refCounter == vs.Old(q.refCounter) && q.withChannel == vs.Old(q.withChannel))
+	})))
+	vs.Ensures("import_tables_stay_nonnil", allImportTablesStayNonNil())
+	// the parameter list stays ready for the signature emitter
+	vs.Ensures("args_stay_ready", vs.Implies(vs.Old(argsHaveTypes(injector)), argsHaveTypes(injector) && injectorArgsReady(injector)))
 	vs.Modifies(injector.Args, injector.Params, vs.FieldOfAll(injector.Args[0].Param.refCounter), vs.FieldOfAll(injector.Args[0].Param.withChannel),
 		vs.FieldOfAll(metaData.Imports[""].IsUsed), metaData.Imports, varPool.vars)
 	vs.Allocates()
